@@ -45,6 +45,31 @@ theorem snapshot_equivalence (log : List Entry) (i : Nat) (old : SM) :
   conv => rhs; rw [← List.take_append_drop i log, applyEntries_append]
   rw [(applyEntries_eq_T State.WF_init (log.take i)).1]; rfl
 
+/-! ### obligations over the tables regenerated from the source (`tools/extract_raft.py`) -/
+section Extracted
+open Varpulis.Generated.RaftCommands
+
+/-- every `ClusterCommand` variant has exactly one arm in `apply_command`, in order, no wildcard arm -/
+theorem every_variant_has_exactly_one_arm : variants.map (·.1) = arms.map (·.1) := by decide
+
+/-- the model has exactly one constructor per variant (a new command breaks this until it is modelled) -/
+theorem model_has_every_variant : variants.map (·.1) = Cmd.tags ∧ ∀ c : Cmd, c.tag ∈ Cmd.tags :=
+  ⟨by decide, tag_mem⟩
+
+/-- the model state has exactly the fields of `CoordinatorState` (so a snapshot of the model state
+omits none of them) -/
+theorem state_fields_mirrored : stateFields = State.fieldNames := by decide
+
+/-- every arm ends in `ClusterResponse::Ok` -/
+theorem every_arm_answers_ok : arms.all (fun a => a.2.2.2 == "Ok") = true := by decide
+
+/-- the source arm of every command touches a single field of the state, and the model's arm changes
+at most that field -/
+theorem arms_touch_one_field (c : Cmd) (s : State) :
+    ∃ f, armField c.tag = some f ∧ frame f s (applyCmdT s c) := arm_frame c s
+
+end Extracted
+
 /-! ### storage contract of the log stores (`MemStore`, `RocksStore`) -/
 
 /-- after any sequence of storage calls that appends only above the purge marker, the reported
